@@ -238,3 +238,22 @@ Definition check_inj (c : inj_case) : list Z :=
   | [] => [77]
   | (_, real) :: _ => if Z.eqb real r then [] else [78]
   end.
+
+(* ---------- C04 on whole simulations: every inner tick lies inside the master tick that
+   triggered it and carries its time (the tick log is in the order the ticks started) *)
+Fixpoint inner_inside (cur : option Z) (log : list (positive * Z * list comp)) : bool :=
+  match log with
+  | [] => true
+  | (lv, t, _) :: r =>
+      if Pos.eqb lv 1%positive then inner_inside (Some t) r
+      else match cur with
+           | Some t0 => Z.eqb t t0 && inner_inside cur r
+           | None => false
+           end
+  end.
+
+(* 49: an inner tick outside its outer tick or with another time *)
+Definition oracle_c04 (c : sim_case) : list Z :=
+  (if inner_inside None (sc_ticklog c) then [] else [49]) ++
+  (if forallb (fun lv => nondecreasing (map fst (log_of_level lv (sc_ticklog c)))) (keys (sc_cfg c)) then [] else [46]).
+Definition check_sim_c04 (c : sim_case) : list Z := check_sim c ++ oracle_c04 c.
